@@ -117,15 +117,23 @@ func shNumRule(arm, v string) string {
 	if arm == "float" || arm == "double" {
 		one = "1.5"
 	}
+	// floating-point option values that need every digit a float64 / float32 can hold (and the largest finite ones)
+	precise, largest := one, one
+	if arm == "double" {
+		precise, largest = "0.30000000000000004", "1.7976931348623157e+308"
+	}
+	if arm == "float" {
+		precise, largest = "16777216", "3.4028235e+38"
+	}
 	switch v {
 	case "gt":
 		return arm + ":{gt:" + one + "}"
 	case "lte":
-		return arm + ":{lte:" + one + "}"
+		return arm + ":{lte:" + precise + "}"
 	case "range":
 		return arm + ":{gte:" + one + " lt:100}"
 	case "const":
-		return arm + ":{const:" + one + "}"
+		return arm + ":{const:" + largest + "}"
 	case "in":
 		return arm + ":{in:" + one + "}"
 	case "not_in":
